@@ -160,7 +160,8 @@ end
 
 instance : Cens Float := ⟨fun f b y c => backwardCensored f b y c⟩
 
-def fmax (a b : Float) : Float := if a < b then b else a
+/-- maximum of two bounds; an undefined bound (NaN) means "no bound" -/
+def fmax (a b : Float) : Float := if a.isNaN || b.isNaN then (1.0 / 0.0) else if a < b then b else a
 
 instance : Cens EF := ⟨fun f b y c =>
   let te : Float := match f c with
